@@ -536,6 +536,35 @@ def r_ptb(repo, rep, writer_only=False, RT='R20.6', RE='R20.5'):
               'children are attached in popped order without reversal: %s' % detail)
 
 
+def r_ja_fields_nonempty(repo, rep, R='R20.6'):
+    """the leaf record of the Japanese bank is `{cat word/word/pos/inflection}`: the reader splits it at the slashes, so no field may come
+    out empty.  A field built as `'-'.join(parts) if <test> else '_'` is empty exactly when the test does not look at the list that is
+    joined (`'-'.join(inflections) if len(poss) else '_'`)."""
+    mod = repo.module('depccg/printer/ja.py')
+    fn = mod.get('ja_of')
+    n = 0
+    for e in ast.walk(fn):
+        if not (isinstance(e, ast.IfExp) and isinstance(e.body, ast.Call) and isinstance(e.body.func, ast.Attribute) and e.body.func.attr == 'join'
+                and len(e.body.args) == 1 and isinstance(e.body.args[0], ast.Name) and isinstance(e.orelse, ast.Constant) and isinstance(e.orelse.value, str)):
+            continue
+        n += 1
+        joined = e.body.args[0].id
+        t = e.test
+        tested = None
+        if isinstance(t, ast.Name):
+            tested = t.id
+        elif isinstance(t, ast.Call) and isinstance(t.func, ast.Name) and t.func.id == 'len' and len(t.args) == 1 and isinstance(t.args[0], ast.Name):
+            tested = t.args[0].id
+        elif isinstance(t, ast.Compare) and len(t.ops) == 1 and isinstance(t.left, ast.Call) and isinstance(t.left.func, ast.Name) and t.left.func.id == 'len' \
+                and t.left.args and isinstance(t.left.args[0], ast.Name) and isinstance(t.ops[0], (ast.Gt, ast.NotEq)) and isinstance(t.comparators[0], ast.Constant) and t.comparators[0].value == 0:
+            tested = t.left.args[0].id
+        rep.check(tested == joined and e.orelse.value != '', R, '%s:%s ja_of' % (mod.rel, e.lineno), 'ja_of:field-nonempty:%s' % joined,
+                  'the field joined from `%s` falls back to %r exactly when `%s` is empty' % (joined, e.orelse.value, joined),
+                  'the field joined from `%s` falls back to %r when `%s`: with `%s` empty and the other not, the field is written empty, the record has a '
+                  'slash too few fields for the reader and the line is not read back' % (joined, e.orelse.value, src(t), joined))
+    return n
+
+
 def r_ja(repo, rep):
     pm = repo.module(PJA)
     rec = pm.get('ja_of.rec')
@@ -716,6 +745,7 @@ def check(repo, rep, tier):
     r_ptb(repo, rep)
     r_ptb_lines(repo, rep)
     r_ja(repo, rep)
+    r_ja_fields_nonempty(repo, rep)
     # the PTB reader asks guess_combinator_by_triplet for the label of every binary node it builds: that function must
     # hand back a result for any three categories (shared with C12 R12.4)
     from .c12 import r_label_recovery
